@@ -47,7 +47,7 @@ def main():
                 g = graphs.get(prog.func(f'{m.name}::{q}'))
             except Exception:
                 g = None
-            c = all_counts(node, g)
+            c = all_counts(node, g, m.tree)
             if c:
                 ref[f'{m.name}::{q}'] = dict(c)
     p2 = VERIF / 'pbv' / 'opaque_reference.json'
